@@ -41,7 +41,8 @@ CLAIMED['C13'] = dict(
          'untraced text is never reported, the real stdout receives everything. Correspondence: the real closures on '
          'generated and exhaustive short write sequences, and generated printing programs (threads, tasks, partial '
          'writes, debugger-output commands) through the real spawned-side code, vs the model (vm_compute) and a direct oracle.',
-    note='Trusted: Coq kernel; the translator and Stdout/Prim.v (meaning of the recognised Python constructs); harness. '
+    note='PARTIAL: the clause "debugger text is never reported" is not a theorem: it holds because Pdb is given its own stream (pdb_/factory.py, stream.py), which is not modelled; it is covered by the system-level runs with debugger-output commands (policy with-debugger-output-commands) and their oracle. ' +
+         'Trusted: Coq kernel; the translator and Stdout/Prim.v (meaning of the recognised Python constructs); harness. '
          'Modelled: GIL atomicity of dict ops on distinct keys; current_trace_no() constant during one write. No axioms.',
     technique='Coq list-induction proofs over a model regenerated from source by a fail-closed ast translator + differential correspondence',
     design='5/C13')
